@@ -5,7 +5,7 @@ import ast
 
 from ..cfg import CFG
 from ..core import AnalysisError, own_nodes, parent, short, unparse
-from ..rules import defs, dsp, exc, lint, nul
+from ..rules import idx, defs, dsp, exc, lint, nul
 from ..typing_lite import Typer
 from . import c04, c11, common
 
@@ -133,6 +133,36 @@ def check_texts_nonempty(ctx):
 from . import c16  # noqa: E402
 
 
+def optional_field_names(ix):
+  """Names of dataclass fields of the model / style value types that may hold None (annotated
+  Optional or defaulting to None) in every dataclass that declares a field of that name."""
+  opt, non = {}, set()
+  for c in ix.classes.values():
+    if not c.is_dataclass or c.module.name not in ("ttconv.style_properties", "ttconv.model"):
+      continue
+    for name, ann in c.ann.items():
+      d = c.assigns.get(name)
+      is_opt = "Optional" in unparse(ann) or (isinstance(d, ast.Constant) and d.value is None)
+      if is_opt:
+        opt.setdefault(name, []).append(c.short)
+      else:
+        non.add(name)
+  return {n: f"`{n}` is an optional field of {', '.join(cs)}" for n, cs in opt.items() if n not in non and n not in ("begin", "end")}
+
+
+def check_optional_fields(ctx):
+  """NUL-optfield: optional fields of the style value types are tested for None before they are
+  dereferenced, in the IMSC reader / writer, the snapshot generator, the filters and the writers."""
+  ix = ctx.ix
+  names = optional_field_names(ix)
+  if len(names) < 3:
+    raise AnalysisError(f"optional dataclass fields: only {sorted(names)} found (anchor changed)")
+  src = nul.NullSources(attr_suffixes=names)
+  fs = common.funcs(ctx, ["ttconv.imsc.style_properties", "ttconv.imsc.elements", "ttconv.isd", "ttconv.filters.doc.lcd"] + common.WRITERS + common.ISD_FILTERS)
+  n = nul.check_sources(ctx, fs, src, rule="NUL-optfield")
+  ctx.floor("NUL-optfield", "dereferences of optional value-type fields", n, 2)
+
+
 def run(ctx):
   ix = ctx.ix
   ty = Typer(ix)
@@ -158,6 +188,9 @@ def run(ctx):
   np_ = nul.check_parent_walk(ctx, [ix.cls("ttconv.srt.reader:_TextParser"), ix.cls("ttconv.vtt.reader:_TextCueParser")])
   ctx.floor("NUL-parent", "parent() stores in the text parsers", np_, 2)
   c04.check_optional_arithmetic(ctx, common.funcs(ctx, ["ttconv.imsc.elements"]))
+  check_optional_fields(ctx)
+  nl = idx.check_lookahead(ctx, common.funcs(ctx, common.READERS + common.WRITERS + ['ttconv.isd']))
+  ctx.note(f'IDX-lookahead: {nl} look-ahead subscripts in reader / writer modules')
   # EXC
   r = exc.Raises(ix, ty)
   c04.check_nonzero_rates(ctx, r)
